@@ -1,5 +1,6 @@
 import ScriggoV.Drv.Util
 import ScriggoV.Model.Paths
+import ScriggoV.Gen.PathSites
 /-! Line protocol of C18.
 
 ```
@@ -9,7 +10,12 @@ C18 clean <hex> | dir <hex>           -> ok <hex>
 C18 join <hex> <hex>                  -> ok <hex>
 C18 isabs|validpath|validutf8 <hex>   -> ok true|false
 C18 resolve <hexparent> <hexname>     -> ok none / ok some <hex of the joined elements>
-C18 build <hexroot> <nfiles> { <hexname> <nrefs> { e|i|r|d <hexpath> } }
+C18 build <hexroot> <nfiles> { <hexname> <nrefs> { e|i|r|d <delim> <hexpath> } }
+   delim = where the reference is written: t `{% %}`, b a statement of a `{%% %%}` block (also a
+   grouped import), s the expression of `{{ }}` (render only), f the body of a function literal
+   (render only); the model asks the generated table Gen.PathSites.guard what the parser does
+   with the path at that site
+C18 site <e|i|r> <delim> <hexpath>    -> ok true|false   the guard of the site applied to the path
    -> <class> opens <n> <hex>…     class = ok clean | ok missing-import | err invalid | err notexist
                                     | err cycle <hexpath> <n> { e|i|r <hexrooted> } | err syntax <kind> [<hex>]
                                     | err fault <name> | err fuel
@@ -23,20 +29,24 @@ def boolStr (b : Bool) : String := if b then "ok true" else "ok false"
 def kindStr : Kind → String
   | .ext => "e" | .imp => "i" | .ren => "r"
 
-def parseRef (k h : String) : Option Ref := do
+def parseSite (k d : String) : Option Site :=
+  match k, d with
+  | "e", "t" => some .extStmt | "e", "b" => some .extStmts
+  | "i", "t" => some .impStmt | "i", "b" => some .impStmts
+  | "r", "s" => some .renShow | "r", "t" => some .renStmt | "r", "b" => some .renStmts | "r", "f" => some .renEOF
+  | "d", "s" => some .renShow | "d", "t" => some .renStmt | "d", "b" => some .renStmts | "d", "f" => some .renEOF
+  | _, _ => none
+
+def parseRef (k d h : String) : Option Ref := do
   let p ← fromHex h
-  match k with
-  | "e" => some ⟨.ext, false, p⟩
-  | "i" => some ⟨.imp, false, p⟩
-  | "r" => some ⟨.ren, false, p⟩
-  | "d" => some ⟨.ren, true, p⟩
-  | _ => none
+  let site ← parseSite k d
+  pure ⟨site.kind, k == "d", p, site⟩
 
 /-- `n` references from the token list -/
 def parseRefs : Nat → List String → Option (List Ref × List String)
   | 0, ts => some ([], ts)
-  | n+1, k :: h :: ts => do
-    let r ← parseRef k h
+  | n+1, k :: d :: h :: ts => do
+    let r ← parseRef k d h
     let (rs, rest) ← parseRefs n ts
     pure (r :: rs, rest)
   | _, _ => none
@@ -120,7 +130,13 @@ def handle : List String → Option String
     let cnt ← n.toNat?
     let (fm, tail) ← parseFiles cnt rest
     if tail ≠ [] then none
-    else pure (resStr (parseTemplate fm root))
+    else pure (resStr (parseTemplate Gen.PathSites.guard fm root))
+  | ["site", k, d, h] => do
+    let p ← fromHex h
+    let site ← parseSite k d
+    pure (match guardCheck (Gen.PathSites.guard site) p with
+      | .ok b => boolStr b
+      | .error f => "err " ++ f.name)
   | _ => none
 
 end ScriggoV.Drv.C18
